@@ -9,6 +9,7 @@ verification conditions.
   unknown = undecided.
 """
 import ast
+import os as _os
 import time
 import z3
 from .types import *
@@ -432,6 +433,8 @@ class Engine:
             ms = (time.time() - t0) * 1000
         self.obs[key] = Ob(name, st, ms, model=self.model_str(m) if m is not None else None, path=key[1],
                            line=line, detail=detail)
+        if st != 'unsat' and _os.environ.get('PYVC_DEBUG'):
+            print('   [debug] %s %s on path %s (%.0f ms)' % (name, st, key[1], ms))
         self.solver.add(cond)
 
     def model_str(self, m):
@@ -567,6 +570,13 @@ class Engine:
             a, b = b, a
             sa, sb = sb, sa
         # a is SV
+        if not sb and isinstance(b, str) and a.ty == TChar:
+            return a.e == ord(b) if len(b) == 1 else False
+        if not sb and isinstance(b, str) and a.ty == TCStr:
+            return z3.And(TCStr.len(a.e) == len(b), *[TCStr.at(a.e, i) == ord(ch) for i, ch in enumerate(b)])
+        if sa and sb and {a.ty, b.ty} == {TChar, TCStr}:
+            c, s_ = (a, b) if a.ty == TChar else (b, a)
+            return z3.And(TCStr.len(s_.e) == 1, TCStr.at(s_.e, 0) == c.e)
         if not sb:
             if b is None:
                 return a.ty.is_none(a.e) if isinstance(a.ty, TOpt) else False
@@ -584,11 +594,16 @@ class Engine:
         if a.ty == b.ty:
             if isinstance(a.ty, (TSeq, TMap)):
                 return self.container_eq(a, b)
+            if isinstance(a.ty, TOpt) and isinstance(a.ty.t, (TSeq, TMap)):
+                t = a.ty
+                return z3.And(t.is_none(a.e) == t.is_none(b.e),
+                              z3.Implies(z3.Not(t.is_none(a.e)),
+                                         self._b(self.container_eq(SV(t.t, t.get(a.e)), SV(t.t, t.get(b.e))))))
             return a.e == b.e
         if isinstance(a.ty, TOpt) and a.ty.t == b.ty:
-            return z3.And(z3.Not(a.ty.is_none(a.e)), a.ty.get(a.e) == b.e)
+            return self.And(z3.Not(a.ty.is_none(a.e)), self.eq(SV(a.ty.t, a.ty.get(a.e)), b))
         if isinstance(b.ty, TOpt) and b.ty.t == a.ty:
-            return z3.And(z3.Not(b.ty.is_none(b.e)), b.ty.get(b.e) == a.e)
+            return self.And(z3.Not(b.ty.is_none(b.e)), self.eq(SV(b.ty.t, b.ty.get(b.e)), a))
         if {a.ty, b.ty} <= {TInt, TReal}:
             return z3.ToReal(a.e) == b.e if a.ty == TInt else a.e == z3.ToReal(b.e)
         return False
@@ -1213,6 +1228,20 @@ class Engine:
                 v = self.coerce_local(v, ty)
             env.vars[tgt.id] = v
         elif isinstance(tgt, (ast.Tuple, ast.List)):
+            star = [i for i, t in enumerate(tgt.elts) if isinstance(t, ast.Starred)]
+            if star:
+                from .builtins import ConcreteList
+                items = self.concrete_list(v)
+                k = star[0]
+                after = len(tgt.elts) - k - 1
+                if len(items) < len(tgt.elts) - 1:
+                    self.maybe_raise(False, 'ValueError')
+                for t, x in zip(tgt.elts[:k], items[:k]):
+                    self.assign(t, x, env)
+                self.assign(tgt.elts[k].value, ConcreteList(items[k:len(items) - after]), env)
+                for t, x in zip(tgt.elts[k + 1:], items[len(items) - after:]):
+                    self.assign(t, x, env)
+                return
             vs = self.unpack(v, len(tgt.elts))
             for t, x in zip(tgt.elts, vs):
                 self.assign(t, x, env)
@@ -1342,6 +1371,7 @@ class Engine:
         if spec.ghost_pre:
             body_names |= assigned_names(ast.parse(_dedent(spec.ghost_pre)).body)
         tnames = assigned_names([node.target]) if is_for else set()
+        tnames -= body_names      # a target that the body also assigns is treated as an ordinary modified variable
         for name in sorted(body_names - tnames):
             if name in env.vars:
                 env.vars[name] = self.havoc_value(env.vars[name], spec.locals.get(name), name)
@@ -1400,6 +1430,11 @@ class Engine:
                 self.oblige(z3.And(dec0 >= 0, dec1 < dec0), 'decreases:%s' % tag, ln)
             raise PathEnd()
         # exit path
+        if is_for and tnames:
+            # the loop variable keeps the last element (if there was one)
+            nz = _int(itv.n) > 0 if not isinstance(itv.n, int) else itv.n > 0
+            if (nz if isinstance(nz, bool) else self.branch(nz)):
+                self.assign(node.target, itv.get(_int(itv.n) - 1), env)
         if is_for:
             nv = self.numval(itv.n)
             env.vars['_i'] = nv
@@ -1422,6 +1457,10 @@ class Engine:
             env.vars['_i'] = outer_i
         else:
             env.vars.pop('_i', None)
+
+
+def _int(x):
+    return z3.IntVal(x) if isinstance(x, int) else x
 
 
 def _as_load(node):
